@@ -60,7 +60,13 @@ class OperatorDict(Mapping):
 
     def filter(self, keys_out, values_out):
         """ For given keys and values, keep only symbolically non-zero elements. """
-        keysvalues = tuple((k, simpv) for k, v in zip(keys_out, values_out) if (simpv := self.algebra.simp_func(v)))
+        keysvalues = tuple((k, self.algebra.simp_func(v)) for k, v in zip(keys_out, values_out))
+        if self.algebra.graded:
+            # In graded mode a grade is kept as a whole as long as one of its coefficients is non-zero.
+            grades = {format(k, 'b').count('1') for k, simpv in keysvalues if simpv}
+            keysvalues = tuple((k, simpv if simpv else 0) for k, simpv in keysvalues if format(k, 'b').count('1') in grades)
+        else:
+            keysvalues = tuple((k, simpv) for k, simpv in keysvalues if simpv)
         keys, values = zip(*keysvalues) if keysvalues else (tuple(), list())
         return keys, list(values)
 
